@@ -1,4 +1,4 @@
-import NA.Proofs.C04Resume
+import NA.Proofs.C04Idem2
 /-!
 # C04 — NSX approve converges to the Netspoc-equivalent gateway policies
 (and the NSX theorems of C07 / C08 / C10, names prefixed `nsx_`)
@@ -107,7 +107,8 @@ theorem nsx_converges (diff : Diff) (hdiff : ∀ n m eq, validScript n m eq (dif
   unfold accepted at hacc
   simp only [Bool.and_eq_true] at hacc
   obtain ⟨⟨⟨⟨⟨h1, h2⟩, h3⟩, h4⟩, h5⟩, h6⟩ := hacc
-  exact plan_converges hdiff (storeFacts_of h1 h2) (targetFacts_of h3 h4) h5 h6 hab
+  obtain ⟨S', a, b, c, d, _⟩ := plan_converges hdiff (storeFacts_of h1 h2) (targetFacts_of h3 h4) h5 h6 hab
+  exact ⟨S', a, b, c, d⟩
 
 /-- C08 for NSX: every call of the script is accepted by a manager that enforces referential
 integrity and create-only PUT. -/
@@ -248,6 +249,88 @@ theorem nsx_equivalent_but_changed_example :
       (plan prefixDiff (load S) T).calls.map (·.target) = ["Netspoc-g1", "Netspoc-v1"] := by
   decide
 
+/-- The names used in the task description. -/
+theorem nsx_unchanged_only_if_equivalent (diff : Diff)
+    (hdiff : ∀ n m eq, validScript n m eq (diff n m eq) = true) (S : Store) (T : Config)
+    (hacc : accepted S T = true) (hab : (plan diff (load S) T).abort = none)
+    (hnone : (plan diff (load S) T).calls = []) :
+    Converged S T ∧ ServicesConverged S T ∧ NoLeftoverGroup S T :=
+  nsx_no_change_only_if_equivalent diff hdiff S T hacc hab hnone
+
+theorem nsx_resume (diff : Diff) (hdiff : ∀ n m eq, validScript n m eq (diff n m eq) = true)
+    (S : Store) (T : Config) (hacc : accepted S T = true) (k : Nat) (Sk : Store)
+    (hk : run S ((plan diff (load S) T).calls.take k) = some Sk)
+    (habk : (plan diff (load Sk) T).abort = none) :
+    ∃ S', run Sk (plan diff (load Sk) T).calls = some S' ∧ Converged S' T ∧ ServicesConverged S' T ∧
+      NoLeftoverGroup S' T :=
+  nsx_resume_converges diff hdiff S T hacc k Sk hk habk
+
+/-- **Equivalent ⇒ unchanged** (the converse of `nsx_unchanged_only_if_equivalent`).  For every
+accepted pair whose manager is already equivalent to the target and carries no left-overs, the plan
+is empty — provided inline service entries are compact JSON on both sides (`rulesCompact`), no two
+target groups and no two managed groups have the same content (`distinctContent`; see
+`nsx_equivalent_but_changed_example` for what happens otherwise) and `diff` is the identity on
+pairwise-equal lists (`IdOnEqual`, as Myers is). -/
+theorem nsx_equivalent_unchanged_partial (diff : Diff) (hid : IdOnEqual diff) (S : Store) (T : Config)
+    (hacc : accepted S T = true) (hconv : Converged S T) (hsvc : ServicesConverged S T)
+    (hgrp : NoLeftoverGroup S T) (hc : rulesCompact (load S) = true ∧ rulesCompact T = true)
+    (hd : distinctContent T.groups = true ∧ distinctContent (load S).groups = true)
+    (hab : (plan diff (load S) T).abort = none) : (plan diff (load S) T).calls = [] := by
+  unfold accepted at hacc
+  simp only [Bool.and_eq_true] at hacc
+  obtain ⟨⟨⟨⟨⟨h1, h2⟩, h3⟩, h4⟩, _⟩, _⟩ := hacc
+  exact plan_unchanged hid (storeFacts_of h1 h2) (targetFacts_of h3 h4) hconv hsvc hgrp
+    ((rulesCompact_iff _).mp hc.1) ((rulesCompact_iff _).mp hc.2) (distinctContent_iff _ hd.1)
+    (distinctContent_iff _ hd.2) hab
+
+/-- **Idempotence** (`nsx_idempotent`, partial).  Full statement: for every accepted pair, executing
+the plan on the strict manager and planning again gives the empty list of REST calls.  That is
+false when a rule of the target carries inline `service_entries` that are not compact JSON
+(`nsx_idempotent_counterexample`, finding F-C04-se); it is proved here under the decidable side
+condition `idemOK S T`: inline service entries compact on the manager and in the target, and no
+two target groups with the same address set (whether the last condition is necessary is open: the
+oracle has found no failing input without it).  The edit-script function must return valid scripts
+and be the identity on pairwise-equal lists. -/
+theorem nsx_idempotent_partial (diff : Diff) (hdiff : ∀ n m eq, validScript n m eq (diff n m eq) = true)
+    (hid : IdOnEqual diff) (S : Store) (T : Config) (hacc : accepted S T = true) (hidem : idemOK S T = true)
+    (hab : (plan diff (load S) T).abort = none) :
+    ∃ S', run S (plan diff (load S) T).calls = some S' ∧
+      ((plan diff (load S') T).abort = none → (plan diff (load S') T).calls = []) :=
+  plan_idempotent hdiff hid hacc hidem hab
+
+/-- Inline service entries written with white space: the rule is re-created on every run. -/
+theorem nsx_idempotent_counterexample :
+    let T : Config := { policies := [⟨"Netspoc-v1", [{ id := "r1", attrs := { svcEntries := "[ 1 ]" } }]⟩] }
+    accepted {} T = true ∧
+    (run {} (plan prefixDiff (load {}) T).calls).map (fun S1 => (plan prefixDiff (load S1) T).calls.length) = some 2 := by
+  decide
+
+/-- The side condition `distinctContent T.groups` cannot be dropped when the manager is free to
+list its rules in another order: with two target groups of equal content and two rules that
+differ only in these groups, the state an approve leaves behind is equivalent and unchanged as
+listed, but listed in reverse order it yields four calls (finding F-C04-dupgrp, replayed on the
+real code by the harness: check `idem`, "lists its objects in another order"). -/
+theorem nsx_idempotent_relisting_counterexample :
+    let T : Config :=
+      { policies := [⟨"Netspoc-v1", [{ id := "r1", src := groupPath "Netspoc-g0", dst := "10.1.1.1" },
+                                    { id := "r2", src := groupPath "Netspoc-g1", dst := "10.1.1.1" },
+                                    { id := "r3", src := groupPath "Netspoc-g0", dst := "10.1.1.0" }]⟩]
+        groups := [⟨"Netspoc-g0", "id", "t", ["10.9.9.9"]⟩, ⟨"Netspoc-g1", "id", "t", ["10.9.9.9"]⟩] }
+    let relist : Store → Store := fun S => { S with policies := S.policies.map fun p => { p with rules := p.rules.reverse } }
+    accepted {} T = true ∧ distinctContent T.groups = false ∧
+    (run {} (plan prefixDiff (load {}) T).calls).map (fun S1 =>
+      ((plan prefixDiff (load S1) T).calls.length, convergedB (relist S1) T,
+       (plan prefixDiff (load (relist S1)) T).calls.length)) = some (0, true, 4) := by
+  decide
+
+/-! Non-vacuity of the idempotence theorems: `prefixDiff` is valid and the identity on equal
+lists; the example pair satisfies `idemOK`; its second plan is empty. -/
+example : IdOnEqual prefixDiff := prefixDiff_idOnEqual
+example : idemOK exStore exTarget = true := by decide
+example : (run exStore (plan prefixDiff (load exStore) exTarget).calls).map
+    (fun S1 => ((plan prefixDiff (load S1) exTarget).abort, (plan prefixDiff (load S1) exTarget).calls)) =
+    some (none, []) := by decide
+
 def obligations : List Lean.Name := [``nsx_converges, ``nsx_calls_executable, ``nsx_no_leftover_service,
   ``nsx_no_leftover_unused_group, ``nsx_group_equalize_converges, ``nsx_rules_converge,
   ``nsx_create_policy_converges, ``nsx_ids_unique, ``nsx_ids_unique_counterexample,
@@ -255,6 +338,8 @@ def obligations : List Lean.Name := [``nsx_converges, ``nsx_calls_executable, ``
   ``overA_spec, ``overB_spec, ``planSvc_spec, ``plan_converges, ``nsx_scope, ``nsx_store_frame, ``nsx_frame,
   ``nsx_scope_counterexample, ``nsx_store_wf_preserved, ``nsx_prefix_wf, ``nsx_resume_converges,
   ``nsx_no_change_only_if_equivalent, ``nsx_equivalent_but_changed_example,
-  ``nsx_idempotent_rawpolicy_counterexample]
+  ``nsx_idempotent_rawpolicy_counterexample, ``nsx_unchanged_only_if_equivalent, ``nsx_resume,
+  ``nsx_equivalent_unchanged_partial, ``nsx_idempotent_partial, ``nsx_idempotent_counterexample, ``nsx_idempotent_relisting_counterexample, ``loadPaged_eq,
+  ``plan_unchanged, ``sortRules_keys, ``diffRules_noop]
 
 end NA.Nsx
